@@ -738,8 +738,25 @@ __strfd_rom(
 {
 	size_t res = 0;
 
-	if (that.typ != DT_YMD) {
-		/* not supported for non-ymds */
+	switch (that.typ) {
+	case DT_YMD:
+	case DT_UMMULQURA:
+		break;
+	case DT_YMCW:
+	case DT_YWD:
+	case DT_YD:
+	case DT_DAISY:
+	case DT_BIZDA:
+		/* year, month and day of the month as in the ymd calendar */
+		with (dt_ymd_t tmp = dt_dconv(DT_YMD, that).ymd) {
+			d->y = tmp.y;
+			d->m = tmp.m;
+			d->d = tmp.d;
+			d->flags.d_dcnt_p = 0U;
+		}
+		break;
+	default:
+		/* not supported */
 		return res;
 	}
 
